@@ -36,7 +36,82 @@ def to_cvc5_text(solver: z3.Solver):
     txt = txt.replace('(set-info :status unknown)', '(set-logic ALL)')
     if '(check-sat)' not in txt:
         txt += '\n(check-sat)\n'
-    return txt
+    return reorder_sort_declarations(txt)
+
+
+def _top_level(txt):
+    """split SMT-LIB text into top-level s-expressions (strings and |symbols| respected)"""
+    out, depth, start, i, n = [], 0, None, 0, len(txt)
+    while i < n:
+        c = txt[i]
+        if c == ';' and depth == 0:
+            j = txt.find('\n', i)
+            i = n if j < 0 else j
+            continue
+        if c == '"':
+            i += 1
+            while i < n:
+                if txt[i] == '"':
+                    if i + 1 < n and txt[i + 1] == '"':
+                        i += 2
+                        continue
+                    break
+                i += 1
+        elif c == '|':
+            i = txt.find('|', i + 1)
+        elif c == '(':
+            if depth == 0:
+                start = i
+            depth += 1
+        elif c == ')':
+            depth -= 1
+            if depth == 0:
+                out.append(txt[start:i + 1])
+        i += 1
+    return out
+
+
+def reorder_sort_declarations(txt):
+    """z3 may print a datatype after another one that uses it (e.g. Val after Expr); cvc5 wants definitions first"""
+    cmds = _top_level(txt)
+    decl_idx = [i for i, c in enumerate(cmds) if c.startswith('(declare-datatypes') or c.startswith('(declare-sort')]
+    if len(decl_idx) < 2:
+        return txt
+    decls = [cmds[i] for i in decl_idx]
+    names = []
+    for d in decls:
+        if d.startswith('(declare-sort'):
+            names.append([d.split()[1]])
+        else:
+            head = d[len('(declare-datatypes'):]
+            # ((A 0) (B 0)) ...
+            depth, j = 0, 0
+            for j, ch in enumerate(head):
+                if ch == '(':
+                    depth += 1
+                elif ch == ')':
+                    depth -= 1
+                    if depth == 0:
+                        break
+            names.append(re.findall(r'\(\s*([^\s()]+)\s+\d+\s*\)', head[:j + 1]))
+    order, placed = [], set()
+    remaining = list(range(len(decls)))
+    while remaining:
+        progressed = False
+        for k in list(remaining):
+            others = [nm for m in remaining if m != k for nm in names[m]]
+            toks = set(re.findall(r'[^\s()]+', decls[k]))
+            if not any(nm in toks for nm in others):
+                order.append(k)
+                remaining.remove(k)
+                progressed = True
+        if not progressed:
+            order.extend(remaining)
+            break
+    first = decl_idx[0]
+    rest = [c for i, c in enumerate(cmds) if i not in set(decl_idx)]
+    new = rest[:first] + [decls[k] for k in order] + rest[first:]
+    return '\n'.join(new) + '\n'
 
 
 UNSUPPORTED = ('(as union', 'setminus', '(as intersection', '(lambda ', '(_ map', 'subset', 'str.from_code')
@@ -64,6 +139,8 @@ def run_cvc5(solver: z3.Solver, timeout_ms):
         out = p.stdout.strip().splitlines()
         if out and out[0] in ('unsat', 'sat', 'unknown'):
             return out[0]
+        if 'timeout' in (p.stdout + p.stderr) or 'interrupted' in (p.stdout + p.stderr):
+            return 'unknown'
         return 'unsupported'
     finally:
         try:
@@ -111,7 +188,7 @@ def discharge(ob, timeout_ms):
             ob.ladder = ladder
             return ob
         if ra == z3.unknown:
-            c = run_cvc5(sa, min(timeout_ms, 5000))
+            c = run_cvc5(sa, min(timeout_ms, 15000))
             ladder.append(f'cvc5-abs{depth}:{c}')
             if c == 'unsat':
                 ob.status, ob.backend = 'discharged', f'cvc5(fuel={depth})'
